@@ -444,6 +444,24 @@ let op_hook args =
   | Ok (argv, stdin) ->
     List.length argv :: List.concat_map put_text argv @ put_text (match stdin with Some l -> l | None -> [])
 
+(* several opens under one configuration: the configuration is the same for every one of them *)
+let op_hookseq args =
+  let (n, r) = take1 args in
+  let (hook, r) = take_texts n r in
+  let (k, r) = take1 r in
+  let rec go k r = if k = 0 then [] else
+      let (link, r) = take_text r in
+      let (present, r) = take1 r in
+      let (mt, r) = if present <> 0 then
+          let (e, r) = take_text r in let (sup, r) = take_text r in let (sub, r) = take_text r in
+          (Some { essence = e; supertype = sup; subtype = sub }, r)
+        else (None, r) in
+      (match hook_command hook link mt with
+       | Panic -> panic_marker
+       | Ok (argv, stdin) -> List.length argv :: List.concat_map put_text argv @ put_text (match stdin with Some l -> l | None -> []))
+      @ go (k - 1) r in
+  go k r
+
 (* ---------------- C17: object accessors ---------------- *)
 let rec take_jv l =
   let (tag, r) = take1 l in
@@ -1096,6 +1114,7 @@ let () =
   reg "squash" op_squash no_oracle;
   reg "height" op_height no_oracle;
   reg "unitable" op_unitable no_oracle;
+  reg "hookseq" op_hookseq (orc_equal op_hookseq);
   reg "hook" op_hook (orc_equal op_hook);
   regl "render" op_render orc_render;
   regl "net" op_net orc_net;
